@@ -31,6 +31,10 @@ func (e UnsupportedTypeError) Error() string {
 // ErrInvalidUTF8 means that a decoder encountered invalid UTF-8.
 var ErrInvalidUTF8 = errors.New("hprose/io: invalid UTF-8")
 
+// ErrInvalidLength means a length, count or index in the stream is negative or
+// larger than the stream can account for.
+var ErrInvalidLength = errors.New("hprose/io: invalid length, count or index")
+
 // A CastError is returned by Decoder when can not cast source type to destination type.
 type CastError struct {
 	Source      reflect.Type
